@@ -47,4 +47,23 @@ PROPS["C19"] = {
     "assumptions": [],
 }
 
+PROPS["C01"] = {
+    "modules": ["Foundation.Proofs.C01"],
+    "level_text": "Machine-checked exact characterisation of acceptance (authorize_ok_iff) of the authentication function all three routes share: a request is executed for address A iff it parses, names this chaincode and channel, the ACL confirms A and does not list it, every non-blank signature verifies and at least the required number (1, or the policy's N, default all) of distinct signer keys carry a genuine signature of the right algorithm over exactly this request; corollaries reject every listed bad case. Crypto is symbolic. Tied to the code by ~3000 really-signed requests (3 key types x 3 routes x all signature-state combinations x ACL answers) with the authenticated sender and the ledger diff observed.",
+    "level_note": "Trusted: Lean kernel + 3 axioms; EUF-CMA of ed25519/secp256k1/GOST (symbolic signatures); base58; the ACL service as the authority for key->address; the model is the hand transcription of cc_auth.go after fix bd1f49e, checked by the differential run; AddAddrIfChanged not modelled here.",
+    "trusted_base": ["symbolic signatures: verify kt pk m s <-> s = valid kt pk m", "core/cc_auth.go modelled by Foundation.Auth.authorize"],
+    "hypotheses": [],
+    "not_modelled": ["secp256k1 64-byte truncation, GOST malformed-key error vs false (both are rejections)", "AddAddrIfChanged (C15)"],
+    "assumptions": [],
+}
+PROPS["C03"] = {
+    "modules": ["Foundation.Proofs.C03"],
+    "level_text": "Machine-checked: acceptance implies every presented signature is genuine over exactly message(fn,args) (sig_binds_message); the message covers function name, request id, names, all arguments, nonce and all keys (message_covers); changing any single covered field or the function name changes the message (append cancellation, any lengths); an accepted request names the executing chaincode and channel and is rejected everywhere else. The boundary-shift clause of the statement is false of plain concatenation: proved counterexample, listed as known finding. Tied to the code by mutating really-signed requests with every operator at every position on three routes.",
+    "level_note": "Trusted: as C01. Known finding (not repaired, wire format): bytes moved across the boundary of two adjacent covered fields keep the signature valid.",
+    "trusted_base": ["symbolic signatures", "message construction in cc_auth.go:90 modelled by Foundation.Auth.message"],
+    "hypotheses": [],
+    "not_modelled": [],
+    "assumptions": [],
+}
+
 NOT_APPLICABLE = {}
